@@ -450,6 +450,13 @@ fn pair_histories(ctx: &Ctx, acc: &mut Acc, l: L, nwords: usize) {
     // included | one-word spelling of a few numbers) as two validations and two rewritings on one interpreter —
     // caches keyed by a lemma, a length or an address show here
     let mut words: Vec<String> = crate::vocab::number_words(l);
+    // function words and unknown literals of the current source tree (state that a new idiom keeps on the
+    // interpreter shows between two one-word calls)
+    for w in crate::vocab::function_words(l).iter().map(|x| x.to_string()).chain(crate::vocab::new_source_literals(l)) {
+        if !words.contains(&w) {
+            words.push(w);
+        }
+    }
     for rank in [1u64, 2, 3, 8, 11, 20, 21, 22, 100, 342, 1000] {
         if rank > ordspell::max_rank(l) {
             continue;
@@ -1043,6 +1050,22 @@ pub fn silent_child() -> i32 {
                 let _ = guard(|| text2digits(&text, &lang).ok());
                 let _ = guard(|| replace_numbers_in_text(&text, &lang, 0.0));
                 let _ = guard(|| replace_numbers_in_text(&text, &lang, 1e9));
+            }
+        }
+        // every linking word, function word and unknown source literal next to a unit, a teen and a small ordinal
+        {
+            let c = crate::vocab::cls(l);
+            let mut ws: Vec<String> = crate::vocab::linking_words(l).iter().map(|x| x.to_string()).collect();
+            ws.extend(crate::vocab::function_words(l).iter().map(|x| x.to_string()));
+            ws.extend(crate::vocab::new_source_literals(l));
+            for w in &ws {
+                for n in [&c.unit, &c.teen, &c.small_ord, &c.large_ord] {
+                    for text in [format!("{w} {n}"), format!("{n} {w}"), format!("{n} {w} {n}")] {
+                        let _ = guard(|| text2digits(&text, &lang).ok());
+                        let _ = guard(|| replace_numbers_in_text(&text, &lang, 0.0));
+                        let _ = guard(|| replace_numbers_in_text(&text, &lang, 10.0));
+                    }
+                }
             }
         }
         for code in ["", "xx", "EN", "english", "en-US", "\u{0}", "e", "zz"] {
